@@ -29,7 +29,7 @@ COMPONENTS = {"real": ["setigen.frame.Frame.add_signal", "setigen.funcs", "blimp
 ASSUMPTIONS = ["uses the returned signal (no independent evaluator; that would be C01)",
                "box profiles are excluded from the bounded-vs-unbounded comparison with integrate_f_profile (knife-edge)",
                "no fault kind applies (no I/O, no clock inside add_signal); a raising callback is C16's subject"]
-PROBES = ["bounding_range_inside", "bounding_range_clipped_low", "bounding_range_clipped_high", "bounding_range_outside_below",
+PROBES = ["unseeded_frame_and_unseeded_signal_function", "bounding_range_inside", "bounding_range_clipped_low", "bounding_range_clipped_high", "bounding_range_outside_below",
           "bounding_range_outside_above", "bounding_range_empty_or_reversed", "float32_frame_injection", "prior_noise",
           "superposition_checked", "other_frames_alive", "integrate_f_profile_bounded", "estimates_not_read_before_injection", "callback_error_in_injection", "frame_took_part_in_cadence_injection"]
 
@@ -48,6 +48,9 @@ def generate(rng, tier):
         g = geom if rng.random() < 0.7 else F.gen_geom(rng)
         spec = F.gen_frame_spec(rng, g, routes=["sizes", "shape", "data", "from_data", "units", "load_fil", "load_fil"])
         spec["noise"] = rng.choice([None, None, "chi2", "gaussian"])
+        if not spec["noise"] and rng.random() < 0.25:
+            # the omitted default: no seed.  (The entropy such a frame draws is the simulator's, so the run replays.)
+            spec["seed"] = None
         frames.append(spec)
     ops = []
     for _ in range(rng.randint(1, 6)):
@@ -55,6 +58,11 @@ def generate(rng, tier):
         g = frames[fi]["geom"]
         op = {"op": "inject", "fr": fi, "sig": F.gen_signal(rng, g, stateful=rng.random() < 0.4), "bounding": gen_bounding(rng),
               "observe_before": rng.random() < 0.5}
+        if rng.random() < 0.35:
+            # randomised signal functions created without a seed, too
+            for part in ("path", "t"):
+                if op["sig"][part].get("kind") in ("rfi", "pulse"):
+                    op["sig"][part]["seed"] = None
         if rng.random() < 0.12:
             # the injection dies part-way: a user callback raises on its k-th evaluation
             op["fault"] = {"which": rng.choice(["f_profile", "f_profile", "path", "t_profile"]), "at": rng.randint(1, 4)}
@@ -182,6 +190,10 @@ def execute(sc, ctx):
             ctx.hit("float32_frame_injection")
     if len(frames) > 1:
         ctx.hit("other_frames_alive")
+    if any(sp["seed"] is None for sp in sc["frames"]) and any(
+            op["sig"][part].get("kind") in ("rfi", "pulse") and op["sig"][part].get("seed") is None
+            for op in sc["ops"] for part in ("path", "t")):
+        ctx.hit("unseeded_frame_and_unseeded_signal_function")
     ninj = 0
     per_frame = {i: [] for i in range(len(frames))}       # (op index, returned signal)
     base = [np.array(fr.data, copy=True) for fr in frames]
